@@ -342,10 +342,14 @@ func (g *c02Gen) create(side string) []c02Op {
 		g.only[id] = side
 	}
 	t := g.tick()
-	return []c02Op{
+	ops := []c02Op{
 		{side, sOp{Kind: "ep", Node: id, Parent: parent, Points: []sPoint{{Type: "tombstone", Time: t}, {Type: "nodeType", Time: t, Text: "variable"}}}},
 		{side, sOp{Kind: "np", Node: id, Points: []sPoint{{Type: "description", Time: g.tick(), Text: "node " + id}, {Type: "value", Time: g.tick(), VBits: math.Float64bits(float64(g.n))}}}},
 	}
+	if g.r.Intn(4) == 0 {
+		return ops[:1] // a node that has no node points (yet): only its edge with tombstone and node type
+	}
+	return ops
 }
 
 func (g *c02Gen) edgePoint(side string) (c02Op, bool) {
@@ -420,7 +424,8 @@ func c02GenCase(r *rand.Rand, id int, allowDelete bool) *c02Case {
 		for i := 0; i < 2+r.Intn(4); i++ {
 			switch r.Intn(4) {
 			case 0:
-				ph2.Ops = append(ph2.Ops, g.create("D")...)
+				// with the link up a node may be created on either side (upstream: the new-node notification path)
+				ph2.Ops = append(ph2.Ops, g.create(c02Side(r))...)
 			case 1:
 				if o, ok := g.edgePoint(c02Side(r)); ok {
 					ph2.Ops = append(ph2.Ops, o)
